@@ -26,6 +26,7 @@ def main():
     ap.add_argument("--checks", default="")
     ap.add_argument("--keep", action="store_true")
     ap.add_argument("--skip-confirm", action="store_true")
+    ap.add_argument("--keep-as", default="", help="store the confirmed seed as /verif/seeded/<id>/ with the results merged into meta.json")
     a = ap.parse_args()
     seed = os.path.abspath(a.seed)
     meta = json.load(open(os.path.join(seed, "meta.json")))
@@ -98,6 +99,20 @@ def main():
             alt = os.path.join("/verif/run", "alt-" + hashlib.sha1(wt.encode()).hexdigest()[:8])
             shutil.rmtree(alt, ignore_errors=True)
     print(json.dumps(res, indent=1))
+    if a.keep_as:
+        dst = os.path.join("/verif/seeded", a.keep_as)
+        if os.path.exists(dst):
+            shutil.rmtree(dst)
+        os.makedirs(dst)
+        shutil.copyfile(os.path.join(seed, "patch.diff"), os.path.join(dst, "patch.diff"))
+        if os.path.isdir(os.path.join(seed, "demo")):
+            shutil.copytree(os.path.join(seed, "demo"), os.path.join(dst, "demo"))
+        m = dict(meta)
+        m["breaks_property"] = meta.get("property")
+        m["confirmed_by_lead"] = {k: res.get(k) for k in ("demo_without_patch", "patch_applies", "build", "suite_failures", "demo_with_patch")}
+        m["confirmed_how"] = "tools/verify_seed.py: scratch copy of /repo; demo passes unpatched; patch applies; go build ./...; go test -vet=off -count=1 ./... ; demo fails patched; then VERIF_REPO=<copy> ./check <id> --tier quick"
+        m["checks_run"] = {k: {"caught": v["caught"], "rc": v["rc"], "lines": v["lines"], "wall_s": v["wall_s"]} for k, v in res.get("checks", {}).items()}
+        json.dump(m, open(os.path.join(dst, "meta.json"), "w"), indent=1)
     return 0
 
 
